@@ -1,19 +1,60 @@
 import Yaql.Drv.Util
-import Yaql.Model.Context
-/-! Driver for C17: replays a context history on the model and reports, after
-every step, what each context handle answers. -/
+import Yaql.Model.ContextHist
+import Yaql.Model.RegistryRow
+/-! Driver for C17: replays a context history on the model (`Yaql.Context.hstep`) and reports, after
+every step, what each context handle answers (`Yaql.Context.answer`) - function lookups for both
+values of `use_convention`. -/
 namespace Yaql.Drv.C17
 open Lean Yaql.Drv Yaql.Context
-
-structure St where
-  cells : Cells := []
-  hs : Array Shape := #[]
 
 def valJ : Val → Json
   | none => .null
   | some i => ji i
 
 def sortN (l : List Nat) : List Nat := l.mergeSort (· ≤ ·)
+
+/-- the convention objects the harness uses -/
+def convOf (j : Json) (k : String) : Option Conv :=
+  match jstr j k with
+  | "camel" => some Yaql.Registry.toCamel          -- conventions.CamelCaseConvention
+  | "python" => some id                            -- conventions.PythonConvention
+  | "upper" => some (·.map Char.toUpper)           -- a host-defined convention: str.upper (ASCII names)
+  | _ => none
+
+def ansJ : Answer → Json
+  | .val v => valJ v
+  | .bool b => jb b
+  | .names l => jl (l.map fun k => js (String.ofList k))
+  | .funcs l e => jl [jl ((sortN l).map jn), jb e]
+  | .layers ls => jl (ls.map fun l => jl ((sortN l).map jn))
+  | .noContext => js "no-context"
+
+def observeH (st : HSt) (names fnames : List Context.Name) : Json :=
+  jl <| (List.range st.ctxs.length).map fun i =>
+    jo [ ("get", jl (names.map fun n => ansJ (answer st (.getData i n)))),
+         ("has", jl (names.map fun n => ansJ (answer st (.contains i n)))),
+         ("keys", ansJ (answer st (.keys i))),
+         ("col", jl ([false, true].map fun uc => jl (fnames.map fun f => ansJ (answer st (.collect i f uc))))),
+         ("gf", jl ([false, true].map fun uc => jl (fnames.map fun f => ansJ (answer st (.getFunctions i f uc))))) ]
+
+def opOf (op : Json) : Option HOp :=
+  let h := jnat op "h"
+  match jstr op "o" with
+  | "plain" => some (.plain (jnatOpt op "parent") (convOf op "conv"))
+  | "multi" => some (.multi ((jarr op "members").map asNat) (convOf op "conv"))
+  | "linked" => some (.linked (jnatOpt op "parent") (jnat op "target") (convOf op "conv"))
+  | "child" => some (.child h)
+  | "set" => some (.set h (jstr op "n").toList (jintOpt op "v"))
+  | "del" => some (.del h (jstr op "n").toList)
+  | "reg" => some (.reg h (jstr op "f").toList (jnat op "id") (jbool op "x"))
+  | "delf" => some (.delf h (jstr op "f").toList (jnat op "id"))
+  | _ => none
+
+/-! ### the convention-free state and step that `Drv.C09` builds on (cells + shapes only) -/
+
+structure St where
+  cells : Cells := []
+  hs : Array Shape := #[]
 
 def observe (st : St) (names fnames : List Context.Name) : Json :=
   jl <| st.hs.toList.map fun s =>
@@ -58,13 +99,22 @@ def step (st : St) (op : Json) : St × String :=
   | "delf" => ({ st with cells := deleteFunction st.cells s (jstr op "f").toList (jnat op "id") }, "ok")
   | o => (st, "bad-op:" ++ o)
 
+def resJ : Res → String
+  | .ok => "ok"
+  | .keyError => "KeyError"
+  | .pyError => "PyError"
+  | .noContext => "no-context"
+
 def handle (req : Json) : Json :=
   let names := (jarr req "names").map fun j => (asStr j).toList
   let fnames := (jarr req "fnames").map fun j => (asStr j).toList
-  let (_, out) := (jarr req "ops").foldl (init := (({} : St), ([] : List Json)))
+  let (_, out) := (jarr req "ops").foldl (init := (({} : HSt), ([] : List Json)))
     fun (st, acc) op =>
-      let (st', r) := step st op
-      (st', jo [("r", js r), ("obs", observe st' names fnames)] :: acc)
+      match opOf op with
+      | some o =>
+          let (st', r) := hstep st o
+          (st', jo [("r", js (resJ r)), ("obs", observeH st' names fnames)] :: acc)
+      | none => (st, jo [("r", js ("bad-op:" ++ jstr op "o")), ("obs", observeH st names fnames)] :: acc)
   jo [("steps", jl out.reverse)]
 
 end Yaql.Drv.C17
